@@ -4,6 +4,7 @@ import (
 	"fmt"
 	"go/ast"
 	"go/types"
+	"hash/fnv"
 	"math/big"
 	"sort"
 	"strings"
@@ -533,7 +534,11 @@ func (e *Engine) structName(t types.Type) string {
 	if name, ok := e.anonStructs[s]; ok {
 		return name
 	}
-	name := fmt.Sprintf("anon%d", len(e.anonStructs)+1)
+	// a name derived from the type itself (not from the order in which anonymous structs are met): symbol names
+	// influence solver heuristics, and run-to-run differences made one obligation flaky
+	h := fnv.New32a()
+	h.Write([]byte(s))
+	name := fmt.Sprintf("anon%08x", h.Sum32())
 	e.anonStructs[s] = name
 	return name
 }
